@@ -24,13 +24,19 @@ def gen_sync_case(rng, cid, profile, expire=False):
             late.append(n)
     wts = profile["weights"]
     p_ep = (wts.get("addep", 0) + wts.get("rmep", 0)) / float(sum(wts.values()))
+    synced = {op["n"] for op in ops if op["op"] == "sync"}
     for op in base["ops"]:
+        if op["op"] == "leave" and (op["n"] % nn) not in synced:
+            # a piko node publishes its addresses (Sync, in the constructor) before it can ever leave
+            n0 = op["n"] % nn
+            ops.append({"op": "sync", "n": n0}); synced.add(n0)
+            if n0 in late: late.remove(n0)
         if rng.random() < p_ep:
             n = rng.randrange(nn)
             kind = "addep" if rng.random() < wts["addep"] / float(wts["addep"] + wts["rmep"]) else "rmep"
             ops.append({"op": kind, "n": n, "e": H(rng.choice(EPS))})
         if late and rng.random() < 0.08:
-            ops.append({"op": "sync", "n": late.pop()})
+            n1 = late.pop(); ops.append({"op": "sync", "n": n1}); synced.add(n1)
         if op["op"] in ("upsert", "delete"):
             # user writes through the gossip API are not part of piko's server; keep a few with harmless keys
             op = dict(op, k=H(rng.choice(["x", "other", "y"])))
